@@ -16,6 +16,10 @@ namespace Pycoin.Wire
 def PrefixLaw {α : Type} (ser : α → Except Err Bytes) (parse : Parser α) (WF : α → Prop) : Prop :=
   ∀ a b rest, WF a → ser a = .ok b → parse (b ++ rest) = .ok (a, rest)
 
+theorem bind_eq_ok {ε α β : Type} (x : Except ε α) (f : α → Except ε β) (b : β) :
+    (x >>= f) = .ok b ↔ ∃ a, x = .ok a ∧ f a = .ok b := by
+  cases x <;> simp [bind, Except.bind]
+
 /-! ## corollaries -/
 
 theorem PrefixLaw.roundTrip {α : Type} {ser : α → Except Err Bytes} {parse : Parser α} {WF : α → Prop}
